@@ -2,10 +2,9 @@
 
 # claimed in DESIGN.md but whose unit is not built yet: listed under not_applicable until it is
 NOT_YET = {
-    'C02': 'SHORT unit under construction',
 }
 
-UNITS = ['types', 'sym', 'lex', 'parser', 'sema']
+UNITS = ['types', 'sym', 'lex', 'parser', 'sema', 'short']
 
 PROPS = {
     'C20': dict(
@@ -167,5 +166,18 @@ PROPS = {
         ],
         not_decided=['qubit/gate/def/include outside global scope, non-duration delay (arms of stmt_to_asg_stmt)', 'BinExpr quantum-operand / ReturnInGlobalScope / NumDefParams / MutateConst as end-to-end postconditions (inside expr_to_asg_texpr / assignment: safety only)'],
         explanation='Verus.',
+    ),
+    'C02': dict(
+        units=['lex', 'short', 'parser'],
+        decided=[
+            '(a) token lengths are the UTF-8 sizes of the consumed characters and tile the input; (b) the token table ends at the input length (LEX unit chain lemma)',
+            '(c) to_input keeps exactly the non-trivia kinds, in order; a token is marked joint iff the very next raw token is not trivia (or it is a float not ending in `.`); the input is well formed and EOF-free',
+            '(d) Parser::eat(K) advances by exactly 2 / 3 raw tokens for the composite kinds and only when the pieces are present and glued, 1 otherwise; do_bump is the only writer of pos; the Token event carries that count',
+            '(f) Builder: do_token emits exactly one Token step carrying the text of the next n raw tokens; eat_trivias emits every pending trivia token in place; the Token steps handed to the sink cover the raw tokens [0, pos) consecutively (invariant preserved by token / exit / eat_trivias / do_token)',
+        ],
+        not_decided=['(e) Output encode/decode identity (Kani harness, thorough tier)', 'intersperse_trivia loop and Builder::enter (iterators / closures): that every Output step reaches the builder in order, and token(..) preconditions hold there',
+                     'event::process keeps the order of Token events; rowan GreenNodeBuilder turns balanced Enter/Token/Exit streams into a tree whose text is the concatenation (external crate)',
+                     '(g) the parser consumes all non-trivia tokens (source_file exits its loop only at EOF: proved as loop exit condition, not stated as a postcondition)'],
+        explanation='Verus: token accounting chain lexer -> LexedStr -> Input -> parser events -> Builder.',
     ),
 }
